@@ -190,10 +190,20 @@ fn case_typed<S: Spec>(sub: &str, id: u64, r: &mut Report) {
             }
             // every position at which the source can start failing
             let ncalls = expected_calls::<S>(k).len();
-            for f in 0..=ncalls + 1 {
+            // every position (exhaustive) up to 40 calls; beyond that the first and last
+            // few positions plus a random sample
+            let positions: Vec<usize> = if ncalls <= 40 { (0..=ncalls + 1).collect() } else {
+                let mut v: Vec<usize> = vec![0, 1, 2, 3, ncalls - 2, ncalls - 1, ncalls, ncalls + 1];
+                for _ in 0..6 { v.push(p.below(ncalls as u64) as usize); }
+                v
+            };
+            if ncalls > 40 { r.cov("fail_positions_sampled"); }
+            for f in positions {
                 let mut fs = SourceRng::new(data.clone());
                 fs.fail_from = Some(f);
                 fs.scribble = p.chance(1, 2);
+                // persistent failure from call f on, or only call f fails (a retry would succeed)
+                fs.fail_once = p.chance(1, 2);
                 fs.token = p.u64();
                 let token = fs.token;
                 let mut fsrc = FallibleSource(fs);
